@@ -278,6 +278,14 @@ def pred_query(c, out):
             for nv, m in X.images_within(cell, pbc, q, p, min(c2, e2)):
                 if (j, nv) not in seen:
                     fails.append("probe %s: image (%d,%s) at squared distance %d <= cutoff^2 (and within the extension) not reported" % (q, j, nv, m))
+        # exact completeness: every image the extended system holds (offsets inside the box of copies the implementation made
+        # for this extension; those counts are checked against the model's n_copies separately) that lies within the cutoff
+        N = out.get("N")
+        if N is not None:
+            for j, p in enumerate(pos):
+                for nv, m in X.images_within(cell, pbc, q, p, c2):
+                    if all(abs(nv[k]) <= N[k] for k in range(3)) and (j, nv) not in seen:
+                        fails.append("probe %s: image (%d,%s) of the extended system at squared distance %d <= cutoff^2 not reported" % (q, j, nv, m))
     return fails
 
 
